@@ -170,7 +170,12 @@ func TestC22(t *testing.T) {
 	n := stats.N(10000, 40000)
 	st.Set("requested_checks", n)
 	stats.Check(t, n, 22, func(rt *rapid.T) {
-		p := GenProgram(rt, Opts{MaxStmts: 4, MaxDepth: 3, BigAmount: true})
+		var p *Program
+		if rapid.IntRange(0, 7).Draw(rt, "focusedRepay") == 0 {
+			p = GenRepayProgram(rt) // one account in several parts of a funding, remainder given back, then drawn on again
+		} else {
+			p = GenProgram(rt, Opts{MaxStmts: 4, MaxDepth: 3, BigAmount: true})
+		}
 		checkC22(rt, st, p)
 		st.Add("completed_checks", 1)
 	})
